@@ -1,4 +1,5 @@
 """C06 — every sift option takes effect at the stage it configures, in every variant."""
+import copy
 import functools
 import hashlib
 import inspect
@@ -93,7 +94,7 @@ def _make_wrapper(name, orig):
         exp = _STATE['expect']
         if rec is not None and exp is not None and exp.get(name) is not None:
             # replay the ORIGINAL stage function on the same data with options computed from the user's dictionaries
-            kwargs = dict(exp[name])
+            kwargs = copy.deepcopy(exp[name])   # never share nested option dicts with the call under observation
             if 'mode' in rec and name != 'get_next_imf':
                 kwargs['mode'] = rec['mode']
             if name == 'interp_envelope':
@@ -283,7 +284,11 @@ class Routing(Stream):
            {'mag_pad_opts': {'$': 'dict', 'v': [['mode', 'mean'], ['stat_length', 2]]}},
            {'loc_pad_opts': {'$': 'dict', 'v': [['mode', 'reflect'], ['reflect_type', 'odd']]}, 'pad_width': 3},
            {'mag_pad_opts': {'$': 'dict', 'v': [['mode', 'edge']]}, 'pad_width': 4},
-           {'mag_pad_opts': {'$': 'dict', 'v': []}, 'loc_pad_opts': None}]
+           {'mag_pad_opts': {'$': 'dict', 'v': []}, 'loc_pad_opts': None},
+           # custom pad modes whose result differs from the default mode with the same remaining keywords
+           # (mean of 2 = median of 2 and edge = median of 1, so the two entries above cannot expose a lost 'mode')
+           {'mag_pad_opts': {'$': 'dict', 'v': [['mode', 'mean'], ['stat_length', 3]]}},
+           {'mag_pad_opts': {'$': 'dict', 'v': [['mode', 'maximum'], ['stat_length', 3]]}, 'pad_width': 3}]
     # options that certainly change the result on the test signals (the default-option output must differ)
     EFFECTIVE = {'imf': [2, 3, 5, 6], 'env': [2, 3], 'ext': [2, 3, 5, 6]}
 
@@ -336,6 +341,9 @@ class Routing(Stream):
             self._case(V['ensemble_sift'], 3, 2, 2), self._case(V['ensemble_sift'] + 1, 5, 3, 7),
             self._case(V['get_next_imf'], 4, 2, 8), self._case(V['sift2'], 3, 2, 2), self._case(V['mask_sift2'], 2, 3, 3),
             self._case(V['mask_sift'] + 1, 6, 2, 4), self._case(V['mask_sift'] + 2, 2, 0, 9), self._case(V['mask_sift'] + 3, 8, 4, 5),
+            # a custom pad mode must survive every later padding call that shares the caller's dict (seeded change C06-2)
+            self._case(V['sift'], 0, 0, 10), self._case(V['sift'] + 1, 0, 0, 11), self._case(V['mask_sift'], 0, 0, 10),
+            self._case(V['sift2'], 0, 0, 10), self._case(V['ensemble_sift'], 0, 0, 11),
         ]
         # malformed options: unknown names, names bound twice, non-dict values, invalid method
         bad = [
@@ -371,7 +379,7 @@ class Routing(Stream):
         u = user_dicts(case)
         if case['variant'] == 'get_next_imf':
             u = dict(u, imf={k2: _cfg.build(v2) for k2, v2 in case['top']})
-        expect = None if case.get('malformed') else expected_stage_kwargs(u)
+        expect = None if case.get('malformed') else copy.deepcopy(expected_stage_kwargs(u))
         res = {}
         for route in routes_of(case):
             with traced(expect) as t:
@@ -453,9 +461,10 @@ class Routing(Stream):
                 fs.append(Failure('routes-disagree:%s:%s-vs-direct' % (case['variant'], route), '%s vs %s' % (ocs[route], ref)))
         if case.get('expect_effect') and out['default_outcome'] is not None and not str(ref).startswith('e:'):
             if all(ocs[r_] == out['default_outcome'] for r_ in routes):
+                # heuristic (an option may legitimately not matter for one signal): never a property violation by itself
                 fs.append(Failure('option-has-no-effect:%s:%s' % (case['variant'], '+'.join(case['expect_effect'])),
                                   '%s: output with options %s equals the default-option output %s'
-                                  % (v, {k2: case[k2] for k2 in ('imf', 'env', 'ext')}, ref)))
+                                  % (v, {k2: case[k2] for k2 in ('imf', 'env', 'ext')}, ref), literal=False))
         return fs
 
     def tags(self, case, out):
